@@ -59,7 +59,21 @@ adjw = z3.Function('adjw', Word, Word)            # word of the adjoint
 Sw = z3.Function('SumW', OpArr, z3.IntSort(), Word)
 Sc = z3.Function('SumC', OpArr, z3.IntSort(), z3.RealSort())
 BLKW = {k: z3.Function(k + 'W', OpArr, z3.IntSort(), Word) for k in ('Row', 'Diag', 'Col')}
-BLKS = {k + io: z3.Function(k + io + 'S', OpArr, z3.IntSort(), Struct) for k in ('Row', 'Diag', 'Col') for io in ('in', 'out')}
+TreeIn = z3.Function('TreeIn', OpArr, z3.IntSort(), Struct)      # the container's pytree of the blocks' input structures
+TreeOut = z3.Function('TreeOut', OpArr, z3.IntSort(), Struct)    # ... of the blocks' output structures
+# structures of the three block containers (definitions: C05/C10 prove the real in_structure/out_structure return these)
+BLKS = {'Rowin': TreeIn, 'Rowout': lambda a, n: outs(a[0]), 'Diagin': TreeIn, 'Diagout': TreeOut,
+        'Colin': lambda a, n: ins(a[0]), 'Colout': TreeOut}
+
+
+matprod = z3.Function('matprod', Op, Op, Op)        # l @ r for operators of unknown class with matching structures
+
+
+def matprod_axioms():
+    l, r = z3.Const('l!mp', Op), z3.Const('r!mp', Op)
+    return [z3.ForAll([l, r], z3.And(denw(matprod(l, r)) == z3.Concat(denw(l), denw(r)), denc(matprod(l, r)) == denc(l) * denc(r),
+                                     ins(matprod(l, r)) == ins(r), outs(matprod(l, r)) == outs(l)),
+                      patterns=[matprod(l, r)])]
 
 
 scaled_by = z3.Function('scaled_by', z3.RealSort(), Op, Op)     # k * X for an operator of unknown class
@@ -123,10 +137,14 @@ def lem_container_cong(fw, a, b, n, fc=None):
 
 
 def lem_struct_cong(kind, a, b, n):
+    """a pytree of structures is a function of its leaves (and of the container layout, shared here)"""
     k = fresh_int('k')
-    hyp = z3.ForAll([k], z3.Implies(z3.And(k >= 0, k < n), z3.And(ins(a[k]) == ins(b[k]), outs(a[k]) == outs(b[k]))))
-    return z3.Implies(hyp, z3.And(BLKS[kind + 'in'](a, n) == BLKS[kind + 'in'](b, n),
-                                  BLKS[kind + 'out'](a, n) == BLKS[kind + 'out'](b, n)))
+    k2 = fresh_int('k')
+    return z3.And(
+        z3.Implies(z3.ForAll([k], z3.Implies(z3.And(k >= 0, k < n), ins(a[k]) == ins(b[k]))), TreeIn(a, n) == TreeIn(b, n)),
+        z3.Implies(z3.ForAll([k2], z3.Implies(z3.And(k2 >= 0, k2 < n), outs(a[k2]) == outs(b[k2]))), TreeOut(a, n) == TreeOut(b, n)),
+        z3.Implies(z3.ForAll([k], z3.Implies(z3.And(k >= 0, k < n), ins(a[k]) == outs(b[k]))), TreeIn(a, n) == TreeOut(b, n)),
+        z3.Implies(z3.ForAll([k2], z3.Implies(z3.And(k2 >= 0, k2 < n), outs(a[k2]) == ins(b[k2]))), TreeOut(a, n) == TreeIn(b, n)))
 
 
 fld_operator = z3.Function('fld_operator', Op, Op)
@@ -290,11 +308,41 @@ class AlgTheory(Theory):
             out = [interp.call(f, [x] + [o.get(i) for o in others], {}) for i, x in enumerate(seq.py_items())]
             res = B.PyList(out)
         else:
-            res = B.PyList(None, seq=SSeq(seq.length, lambda k: interp.call(f, [seq.get(k)] + [o.get(k) for o in others], {}),
-                                          'list'))
+            # f is applied at a generic position j (nested exploration): if it can raise there, tree.map raises for
+            # some position; otherwise the result list is defined element-wise by the value f returns at each position
+            n = to_z3(seq.length)
+            j, outs_ = interp.explore_at(lambda sub, jj: sub.call(f, [seq.get(jj)] + [o.get(jj) for o in others], {}),
+                                         0, n, 'map')
+            raising = [(c, o) for c, o in outs_ if o[0] == 'raise']
+            normal = [(c, o) for c, o in outs_ if o[0] == 'return']
+            for c, o in raising:
+                some = z3.Exists([j], z3.And(j >= 0, j < n, zbool(c))) if c is not True else (n > 0)
+                if interp.run.branch(some):
+                    from pyvc.values import PyRaise
+                    raise PyRaise(o[1])
+            R = op_seq('mapped', seq.length)
+            for c, o in normal:
+                v = o[1]
+                if not (is_z3(v) and v.sort() == Op):
+                    if isinstance(v, Obj):
+                        raise Unsupported('tree.map over a symbolic container with a function building operator objects')
+                    raise Unsupported(f'tree.map over a symbolic container returning {v!r}')
+                body = z3.Implies(z3.And(j >= 0, j < n, zbool(c)) if c is not True else z3.And(j >= 0, j < n),
+                                  R.arr[j] == v)
+                interp.run.assume(z3.ForAll([j], body, patterns=[R.arr[j]]))
+            res = B.PyList(None, seq=R)
         res.treedef = getattr(tree, 'treedef', 0)
         if res.seq is not None:
             self.after_seq_map(interp, res.seq, seq)
+            if len(others) == 1:
+                # block-wise products of two containers: LA4 instances for the lists at hand
+                run = interp.run
+                pa, la_, ra_ = arr_of(run, res.seq, interp), arr_of(run, seq, interp), arr_of(run, others[0], interp)
+                nn = to_z3(seq.length)
+                for (kl, kr) in RES_KIND:
+                    run.assume(lem_LA4(kl, kr, la_, ra_, pa, nn))
+                run.assume(lem_struct_cong(None, pa, ra_, nn))
+                run.assume(lem_struct_cong(None, pa, la_, nn))
         return res
 
     def tree_all(self, interp, tree):
@@ -416,10 +464,7 @@ class AlgTheory(Theory):
             l, r = (obj, args[0]) if name == '__matmul__' else (args[0], obj)
             if not interp.run.branch(ins(l) == outs(r)):
                 interp.raise_('ValueError', 'Incompatible linear operator structures')
-            p = fresh_const('prod', Op)
-            interp.run.assume(z3.And(denw(p) == z3.Concat(denw(l), denw(r)), denc(p) == denc(l) * denc(r),
-                                     ins(p) == ins(r), outs(p) == outs(l)))
-            return p
+            return matprod(l, r)            # axioms: matprod_axioms()
         if name in ('__rmul__', '__mul__') and len(args) == 1 and not (is_z3(args[0]) and args[0].sort() == Op):
             # k * X for an operator of unknown class: callee contract of __rmul__ (proved in C02, scalar scenarios)
             k = args[0].value if isinstance(args[0], ScalarArr) else args[0]
@@ -563,7 +608,7 @@ class AlgTheory(Theory):
         run.assume(lem_container_cong(Sw, a, b, n, Sc))
         for kind in ('Row', 'Diag', 'Col'):
             run.assume(lem_container_cong(BLKW[kind], a, b, n))
-            run.assume(lem_struct_cong(kind, a, b, n))
+        run.assume(lem_struct_cong(None, a, b, n))
         k = fresh_int('k')
         # typing of the mapped chain follows from element-wise equal structures
         run.assume(z3.Implies(z3.ForAll([k], z3.Implies(z3.And(k >= 0, k < n), z3.And(ins(a[k]) == ins(b[k]),
@@ -655,10 +700,7 @@ def same_map(interp, a, b):
 
 # ------------------------------------------------------------------------------- block containers' structures
 def block_struct_axioms():
-    a = z3.Const('a!bs', OpArr)
-    n = z3.Int('n!bs')
-    return [z3.ForAll([a, n], BLKS['Rowout'](a, n) == outs(a[0]), patterns=[BLKS['Rowout'](a, n)]),
-            z3.ForAll([a, n], BLKS['Colin'](a, n) == ins(a[0]), patterns=[BLKS['Colin'](a, n)])]
+    return []
 
 
 def block_structure_contracts():
@@ -693,9 +735,11 @@ def lem_LA4(kl, kr, l, r, p, n):
 
 
 def lem_tree_struct_injective(f, a, g, b, n, sel_a, sel_b):
-    """two containers' structure trees are equal iff they have the same layout and leaf-wise equal structures"""
+    """two containers' structure trees (same layout) are equal iff their leaves are equal"""
     k = fresh_int('k')
-    return z3.Implies(f(a, n) == g(b, n), z3.ForAll([k], z3.Implies(z3.And(k >= 0, k < n), sel_a(a[k]) == sel_b(b[k]))))
+    if f in (TreeIn, TreeOut) and g in (TreeIn, TreeOut):
+        return z3.Implies(f(a, n) == g(b, n), z3.ForAll([k], z3.Implies(z3.And(k >= 0, k < n), sel_a(a[k]) == sel_b(b[k]))))
+    return z3.BoolVal(True)
 
 
 def container_callee_contracts(P):
